@@ -67,6 +67,10 @@ type c13Case struct {
 	// ClosedEarlier: (connclose) the logical channel with this index (not the newest one) was
 	// closed on its own before Conn.Close: the ids of the open channels have a gap
 	ClosedEarlier int `json:"channel_closed_earlier,omitempty"`
+	// ResetFirst: (close, cancel-recv) the consumer that abandons the response calls
+	// Channel.Reset() first - what a client does when it is done with an exchange; it returns
+	// at once whatever the fill level, and what follows (cancel, Close) behaves as without it
+	ResetFirst bool `json:"reset_called_first,omitempty"`
 }
 
 // env is one connection with its peer.
@@ -536,6 +540,13 @@ func runClose(c c13Case) *vh.Failure {
 		e.pipe.Feed(rc.Packet{Type: rc.BufProtAck, Channel: uint16(id), Status: rc.StatEOM}.Bytes())
 		time.Sleep(200 * time.Microsecond)
 	}
+	if c.ResetFirst {
+		ok, pan, _ := timed(2*time.Second, func() { ch.Reset() })
+		if pan != nil || !ok {
+			return vh.Failf("C13/reset-blocks", "%v: Channel.Reset with %d of %d packages unconsumed (queue capacity %d): returned=%v panic=%v", c, c.Sent-c.Consumed, c.Sent, c.Cap, ok, pan)
+		}
+		vh.Label("close:reset-called-first")
+	}
 	// drain the queue completely if the consumer took everything, so a logout answer can be seen
 	readerParked := c.Sent-c.Consumed > c.Cap
 	var wg sync.WaitGroup
@@ -859,6 +870,7 @@ func genCase(rt *rapid.T, kind string) c13Case {
 		c.Blocked = c.Logical && rapid.Bool().Draw(rt, "blocked")
 		c.Parked = c.Logical && rapid.IntRange(0, 2).Draw(rt, "parked") == 0
 		c.Control = rapid.IntRange(0, 2).Draw(rt, "control") == 0
+		c.ResetFirst = rapid.IntRange(0, 3).Draw(rt, "resetfirst") == 0
 		if rapid.IntRange(0, 3).Draw(rt, "parentcancelled") == 0 {
 			// with the connection's context gone the logout / teardown fails fast; a send may
 			// still be parked in the transport
